@@ -371,12 +371,18 @@ func runPool3(seed uint64, n int, out, stats string, args []string) {
 				dz = Z(1)
 			}
 			x0, x1 := p.pair(dir).Reserves()
+			if x0.Sign() < 1 || x1.Sign() < 1 {
+				p.mon = append(p.mon, MonitorFailure{What: fmt.Sprintf("C13: a pool reserve is not positive: %s / %s", x0, x1), Key: "c13-reserve-not-positive", Replay: joinLines(p.hist)})
+				break
+			}
 			switch k := r.Intn(12); {
 			case k < 4: // add an order near the pool price
 				b := new(big.Int).Add(r.BigBelow(new(big.Int).Div(x0, Z(int64(2+r.Intn(50))))), ZS("20000000000"))
 				s := new(big.Int).Div(new(big.Int).Mul(b, x1), x0)
-				s.Mul(s, Z(int64(500+r.Intn(900))))
-				s.Div(s, Z(1000))
+				if r.Intn(6) != 0 { // otherwise: exactly the pool price (no price-move step before this order is crossed)
+					s.Mul(s, Z(int64(500+r.Intn(900))))
+					s.Div(s, Z(1000))
+				}
 				if r.Intn(5) == 0 && len(p.live) > 0 { // same exact price as an existing order (tie at 53 bits)
 					for _, v := range p.live {
 						if (v[0].Sign() == 1) == dir {
@@ -407,6 +413,20 @@ func runPool3(seed uint64, n int, out, stats string, args []string) {
 				o := r.BigBelow(new(big.Int).Div(x1, Z(int64(1+r.Intn(20)))))
 				if r.Intn(10) == 0 {
 					o = Z(int64(r.Intn(3000)))
+				}
+				if r.Intn(5) == 0 {
+					// boundary: everything the pool holds plus the first k orders in full, give or take one unit
+					// (the tail branch of calculateSellForBuyWithOrders: remaining amount = remaining reserve)
+					o = cp(x1)
+					pr := p.pair(dir)
+					for k, kk := 0, r.Intn(4); k < kk; k++ {
+						l := pr.OrderSellByIndex(k)
+						if l == nil {
+							break
+						}
+						o.Add(o, l.WantSell)
+					}
+					o.Add(o, Z(int64(r.Intn(3)-1)))
 				}
 				do(L(Z(3), dz, o))
 				if p.lastPartial != 0 && r.Intn(2) == 0 {
